@@ -1887,7 +1887,8 @@ class ConstraintSignature(BaseSignature):
         return (other is not None and
                 self.name == other.name and
                 self.type is other.type and
-                dict.__eq__(self.attrs, other.attrs))
+                dict.__eq__(self._get_comparable_attrs(),
+                            other._get_comparable_attrs()))
 
     def __hash__(self):
         """Return a hash of the signature.
@@ -1898,7 +1899,8 @@ class ConstraintSignature(BaseSignature):
             int:
             The hash of the signature.
         """
-        return hash(repr(self))
+        return hash('<ConstraintSignature(name=%r, type=%r, attrs=%r)>'
+                    % (self.name, self.type, self._get_comparable_attrs()))
 
     def __repr__(self):
         """Return a string representation of the signature.
@@ -1909,6 +1911,23 @@ class ConstraintSignature(BaseSignature):
         """
         return ('<ConstraintSignature(name=%r, type=%r, attrs=%r)>'
                 % (self.name, self.type, self.attrs))
+
+    def _get_comparable_attrs(self):
+        """Return the attributes in a form suitable for comparison.
+
+        Tuples are treated as lists. A stored signature can only represent
+        lists, so a constraint built from a model (where, for instance,
+        ``UniqueConstraint.fields`` is a tuple) must still compare equal to
+        the same constraint read back from the database.
+
+        Returns:
+            dict:
+            The attributes, with tuple values converted to lists.
+        """
+        return dict(
+            (key, list(value) if isinstance(value, tuple) else value)
+            for key, value in six.iteritems(self.attrs or {})
+        )
 
     def _serialize_attr_value(self, value):
         """Return a serialized version of a constraint attribute value.
